@@ -1070,6 +1070,20 @@ class Engine(object):
 
     def eval_call(self, e, st):
         f = e.func
+        if self.spec_mode and isinstance(f, ast.Name) and f.id == "implies" and len(e.args) == 2 and not e.keywords:
+            # implies(a, b) where b names a variable that is unbound on this path: b is only needed where a can hold
+            a_ = self.truthy(self._eval_spec_node(e.args[0], st), st)
+            try:
+                b_ = self.truthy(self._eval_spec_node(e.args[1], st), st)
+            except OutOfSubset as ex:
+                if "not bound on this path" not in str(ex):
+                    raise
+                probe = st.fork()
+                probe.assume(a_)
+                if self.feasible(probe):
+                    raise
+                return [(st, VBool(z3.BoolVal(True)))]
+            return [(st, VBool(z3.Implies(a_, b_)))]
         if self.spec_mode and isinstance(f, ast.Name) and f.id == "old" and len(e.args) == 1:
             frame0, heap0 = self._spec_old
             s_old = st.fork()
